@@ -44,7 +44,7 @@ POOL = [0.3, 0.7, 2, 5, 1, "red", "blue", "#112233", "solid", "dashed", "dotted"
 def plan(tier):
     return {"shards": 8 if tier == "quick" else 16, "budget_s": 30 if tier == "quick" else 420,
             "required_counters": ["precedence_cases", "notation_cases", "history_cases", "invalid_cases",
-                                  "reset_checks", "show_observations", "leak_checks", "shared_dict_cases", "two_family_cases"]}
+                                  "reset_checks", "show_observations", "leak_checks", "shared_dict_cases", "two_family_cases", "style_copy_cases"]}
 
 
 # ------------------------------------------------------------------ helpers on the running tree
@@ -393,6 +393,45 @@ def run_shared_dict(ctx, case):
         magpy.defaults.reset()
 
 
+def run_style_copy(ctx, case):
+    """style.copy() of an object's style / of the default style tree: writing a leaf (attribute notation, through
+    the nested classes) on one side never shows on the other"""
+    import magpylib as magpy
+
+    kind, leaf, v = case["kind"], case["leaf"], case["value"]
+    magpy.defaults.reset()
+    try:
+        with quiet():
+            obj = make_obj(kind)
+            if case["of"] == "object":
+                orig = obj.style
+            else:
+                fams = families_with_leaf(obj, leaf) or ["base"]
+                orig = getattr(magpy.defaults.display.style, fams[0])
+            cp = orig.copy()
+            a, b = (cp, orig) if case["direction"] == "copy" else (orig, cp)
+            before = flat(b)
+            dbefore = defaults_json()
+            try:
+                set_attr(a, leaf, v) if case["how"] == "attr" else a.update(**{leaf: v})
+            except Exception as e:
+                ctx.count("style_copy_write_rejected")
+                return
+            after = flat(b)
+        ctx.count("style_copy_cases")
+        ctx.count("leak_checks")
+        ctx.evaluated(case, nontrivial=True)
+        if after != before:
+            ch = [k for k in after if after[k] != before.get(k)]
+            ctx.violation({"kind": "style-copy-not-independent", "of": case["of"], "how": case["how"],
+                           "nested": "_" in leaf}, case, {"changed": ch[:5], "direction": case["direction"]})
+            return
+        if case["of"] == "default" and case["direction"] == "copy" and defaults_json() != dbefore:
+            ctx.violation({"kind": "style-copy-write-changed-defaults"}, case, {})
+    finally:
+        magpy.defaults.reset()
+
+
 def run_invalid(ctx, case):
     import magpylib as magpy
 
@@ -419,6 +458,8 @@ def run_invalid(ctx, case):
                     make_obj(kind, style=nested(leaf, v)).style
                 elif what == "show_kw":
                     effective(obj, {"style_" + leaf: v})
+                elif what == "show_dict":
+                    effective(obj, {"style": nested(leaf, v)})
                 elif what == "default":
                     for f in (families_with_leaf(obj, leaf) or ["base"]):
                         getattr(magpy.defaults.display.style, f).update(**{leaf: v})
@@ -431,7 +472,7 @@ def run_invalid(ctx, case):
             ctx.violation({"kind": "invalid-style-accepted", "cls": kind, "what": what, "bad": case["bad"],
                            "leaf_group": leaf.split("_")[0]}, case, {"leaf": leaf, "value": v})
             return
-        if what in ("attr", "update_kw", "update_dict", "show_kw") and D.digest(obj) != before:
+        if what in ("attr", "update_kw", "update_dict", "show_kw", "show_dict") and D.digest(obj) != before:
             ctx.violation({"kind": "rejected-style-changed-object", "cls": kind, "what": what}, case,
                           {"diff": D.diff(before, D.digest(obj))})
         if what != "default" and defaults_json() != dbefore:
@@ -509,7 +550,11 @@ def run_shard(ctx):
         vals = leaf_values(ctx, kind)
         leaf = list(vals)[int(rng.integers(0, len(vals)))]
         good = vals[leaf]
-        if rng.random() < 0.12:
+        if rng.random() < 0.1:
+            run_style_copy(ctx, {"type": "style_copy", "kind": kind, "leaf": leaf, "value": good[int(rng.integers(0, len(good)))],
+                                 "of": str(rng.choice(["object", "default"])), "direction": str(rng.choice(["copy", "orig"])),
+                                 "how": str(rng.choice(["attr", "update_kw"]))})
+        elif rng.random() < 0.12:
             run_shared_dict(ctx, {"type": "shared_dict", "kind": kind, "leaf": leaf, "value": good[0],
                                   "access": str(rng.choice(["first", "copy", "show", "none"]))})
         elif rng.random() < 0.6:
@@ -519,14 +564,15 @@ def run_shard(ctx):
             run_history(ctx, {"type": "history", "kind": kind, "leaf": leaf, "steps": steps})
         else:
             bad = str(rng.choice(["unknown_name", "wrong_kind"]))
-            what = str(rng.choice(["attr", "update_kw", "update_dict", "ctor_kw", "ctor_dict", "show_kw", "default"]))
+            what = str(rng.choice(["attr", "update_kw", "update_dict", "ctor_kw", "ctor_dict", "show_kw", "show_dict", "default"]))
             if bad == "unknown_name":
                 parts = leaf.split("_")
                 parts[-1] = parts[-1] + "zz" if rng.random() < 0.5 else "nosuchleaf"
                 case = {"type": "invalid", "kind": kind, "what": what, "bad": bad, "leaf": "_".join(parts), "value": good[0]}
-                if what == "show_kw" and len(parts) > 1:
-                    # show kwargs apply "to all objects matching the given style properties": an unknown
-                    # sub-leaf of a known group is silently not matched by design - only level-0 names judged
+                if what in ("show_kw", "show_dict") and len(parts) > 1 and rng.random() < 0.3:
+                    # show kwargs apply "to all objects matching the given style properties": a family the object's
+                    # style does not have is skipped by design, so an unknown family name is judged at level 0 only;
+                    # an unknown sub-leaf of a family the object HAS (the other 70 %) must be rejected
                     case["leaf"] = "nosuchgroup_" + case["leaf"]
             else:
                 wv = wrong_kind_value(good[0], leaf)
@@ -538,4 +584,5 @@ def run_shard(ctx):
 
 def replay(ctx, case):
     ctx._pristine = pristine_defaults()
-    {"precedence": run_precedence, "history": run_history, "invalid": run_invalid, "shared_dict": run_shared_dict}[case["type"]](ctx, case)
+    {"precedence": run_precedence, "history": run_history, "invalid": run_invalid, "shared_dict": run_shared_dict,
+     "style_copy": run_style_copy}[case["type"]](ctx, case)
